@@ -111,6 +111,7 @@ CHECKS = {
                      "concurrent opens sample the scheduler; they do not enumerate interleavings"],
         units=[
             dict(test="TestC18Reopen", unit="reopen", kind="rapid", checks=(800, 16000), shards=(8, 16), bin=True),
+            dict(test="TestC18SameServer", unit="same-server", kind="rapid", checks=(160, 3200), shards=(8, 16)),
         ],
     ),
     "C05": dict(
@@ -285,6 +286,7 @@ CHECKS = {
         units=[
             dict(test="TestC16Idle", unit="idle", kind="rapid", checks=(48, 1200), shards=(16, 16), shrink_s=5),
             dict(test="TestC16IdleBin", unit="idle-bin", kind="rapid", checks=(16, 320), shards=(16, 16), shrink_s=5, bin=True),
+            dict(test="TestC16Matrix", unit="matrix", kind="enum", shards=(16, 16), bin=True),
         ],
     ),
     "C19": dict(
